@@ -1,4 +1,5 @@
 #!/bin/sh
+export PYVC_EVIDENCE_DIR=/tmp/pyvc_selftest_evidence
 # usage: run_seeds.sh [PROP ...]  -- regression over /verif/seeded: applies each kept change to /repo, runs the check of its
 # property, expects exit 1 with a VIOLATION line, reverts.  Prints one line per change.
 cd /verif
